@@ -19,3 +19,4 @@ SMI_CHARS = ["C", "N", "O", "F", "c", "n", "o", "s", "l", "B", "r", "[", "]", "(
              "=", "#", ":", "/", "\\", "-", "+", "@", "H", "x", "*", "²"]
 SMI_TOKENS = ["C", "N", "O", "F", "Cl", "c", "n", "o", "s", "[nH]", "[n+]", "[C@H]", "[O-]", "[Fe+2]", "[CH3]",
               "=C", "#N", "/C", "\\C", ":c", ":C", "(", ")", "1", "2", "=1", "/1", "%10", ".", "=", "%1", "[", "]"]
+SMI_CHARS_Q = ["C", "N", "O", "c", "n", "o", "l", "[", "]", "(", ")", "1", "2", "%", "0", ".", "=", "#", ":", "/", "\\", "+", "H", "²"]
